@@ -28,6 +28,14 @@ func c05Drivers() []concParams {
 		{Name: "transaction-vs-snapshot", Cfg: "bigbatch/bytewise", Pre: []string{"put:a", "put:b"}, Clients: [][]string{{"tr:+a,+b"}, {"snapget:a,b,a"}}, QB: 2, TB: 3},
 		{Name: "transaction-vs-iter", Cfg: "bigbatch/bytewise", Pre: []string{"put:a"}, Clients: [][]string{{"tr:+a,+b"}, {"iterscan"}, {"get:b", "get:a"}}, QB: 1, TB: 3},
 		{Name: "compact-vs-rw", Cfg: "flushy/bytewise", Pre: []string{"put:a", "put:b", "q"}, Clients: [][]string{{"put:a"}, {"cr"}, {"get:a", "get:b"}}, QB: 2, TB: 3},
+		// Has shares Get's lookup path but not its code: a delete and a re-insert racing a flush
+		{Name: "has-vs-delete-flush", Cfg: "flushy/bytewise", Pre: []string{"put:a"}, Clients: [][]string{{"del:a", "put:a"}, {"has:a", "get:a", "has:a"}}, QB: 2, TB: 3},
+		// a snapshot taken while a compaction decides which old versions to keep: both reads
+		// through it must agree with one cut, whatever the compaction dropped
+		{Name: "snapshot-vs-compaction", Cfg: "flushy/bytewise", Pre: []string{"put:a", "put:b", "q"}, Clients: [][]string{{"snapget:a,b,a"}, {"put:a", "cr"}}, QB: 2, TB: 3},
+		{Name: "snapshot-vs-delete-compaction", Cfg: "deep/bytewise", Pre: []string{"put:a", "q", "put:b", "q"}, Clients: [][]string{{"snapget:a,b,a"}, {"del:a", "cr"}, {"iterscan"}}, QB: 1, TB: 2},
+		// writers queued behind a transaction (a full merge queue in the base schedule) and readers
+		{Name: "queue-behind-transaction-readers", Cfg: "roomy/bytewise", Pre: []string{"put:a"}, Clients: [][]string{{"trq:+a,+b"}, {"put:a"}, {"w:+a,-b"}, {"get:a", "get:b"}, {"snapget:a,b"}}, QB: 2, TB: 3},
 		{Name: "bigbatch-vs-reader", Cfg: "bigbatch/bytewise", Pre: []string{"put:a", "put:b"}, Clients: [][]string{{"w:+a,+b,-a,+a"}, {"snapget:a,b"}}, QB: 2, TB: 3},
 	}
 }
